@@ -216,7 +216,7 @@ def pixel(img, oversample=1):
 
     mtf_x = np.sinc(x*oversample)
     mtf_y = np.sinc(y*oversample)
-    kernel = np.dot(mtf_x[:, np.newaxis], mtf_y[np.newaxis, :])
+    kernel = np.outer(mtf_y, mtf_x)
 
     return np.abs(np.fft.ifft2(np.fft.fft2(img)*kernel))
 
